@@ -10,3 +10,34 @@ package types
 
 //@ contract interface ChannelKeeper.GetChannel
 //@   ensures result0 == icaChannelOf(world(ctx), srcPort, srcChan) && result1 == icaHasChannel(world(ctx), srcPort, srcChan)
+
+// ---- handshake helpers (C38)
+
+//@ contract MetadataFromVersion
+//@   pure
+//@   trusted JSON decoding of the channel version into Metadata is a deterministic function of the string
+
+//@ contract ValidateControllerMetadata
+//@   pure
+//@   trusted metadata validation reads the connection and compares fields; specified only as a deterministic, state-preserving function here
+
+//@ contract ValidateHostMetadata
+//@   pure
+//@   trusted metadata validation reads the connection and compares fields; specified only as a deterministic, state-preserving function here
+
+//@ contract IsPreviousMetadataEqual
+//@   pure
+//@   trusted compares the previous version's metadata with the proposed one (JSON decoding inside)
+
+//@ contract NewControllerPortID
+//@   pure
+//@   ensures derived_from_owner: err == nil ==> result0 == ControllerPortPrefix + owner && strings.TrimSpace(owner) != ""
+//@   ensures blank_owner_rejected: strings.TrimSpace(owner) == "" ==> err != nil
+
+// read-only queries of the keepers this module depends on: they change no state (A-ctx does not apply to getters)
+
+//@ contract interface ChannelKeeper.GetConnection
+//@   ensures world(ctx) == old(world(ctx))
+
+//@ contract interface AccountKeeper.GetAccount
+//@   ensures world(ctx) == old(world(ctx))
